@@ -293,6 +293,9 @@ type c19Run struct {
 // taken a command for this long is reported as not coming back
 const c19FlushTimeout = 15 * time.Second
 
+// number of runs whose wait for the effect of Server.Stop ran out
+var c19StopTimeouts = 0
+
 // c19LoopBlockedInSend reports whether some goroutine sits in a channel send inside
 // (*state).send -- an observation of where the loop goroutine is, taken from the runtime
 func c19LoopBlockedInSend() bool {
@@ -483,14 +486,29 @@ func c19RunSched(t *testing.T, w *c19Writer, run int, sc c19Sched) (stuck bool) 
 			t.Fatalf("run %d: stop: %v", run, err)
 		}
 		// removeAll(nil) runs in the loop goroutine after Stop returned: wait for its effect
-		tm := time.NewTimer(c19FlushTimeout)
+		// (a subscription the loop has lost track of is never cancelled: after two such waits
+		// have run out the wait is cut short -- an uncancelled subscription after Stop is
+		// conformance data, not a verdict)
+		wait := c19FlushTimeout
+		if c19StopTimeouts >= 2 {
+			wait = 100 * time.Millisecond
+		}
+		tm := time.NewTimer(wait)
+		expired := false
 		for _, s := range r.subs {
+			if expired {
+				break
+			}
 			select {
 			case <-s.sub.Cancelled():
 			case <-tm.C:
+				expired = true
 			}
 		}
 		tm.Stop()
+		if expired {
+			c19StopTimeouts++
+		}
 		emit(c19Step{Op: "Stop"}, "ok", 0, false, false)
 	}
 	for _, s := range r.subs {
